@@ -8,6 +8,8 @@ From RV Require Import Proofs.DemuxProofs.
 From RV Require Import Gen.RtpBridge.
 From RV Require Import Model.Bridge.
 From RV Require Import Proofs.BridgeProofs.
+From RV Require Model.RtpLib.
+From RV Require Model.Rtp.
 Import ListNotations.
 Open Scope Z_scope.
 
@@ -17,23 +19,27 @@ Open Scope Z_scope.
 Theorem C19_at_most_one : forall ops s, Forall (fun d => (length d <= 1)%nat) (run_out s ops).
 Proof. exact run_at_most_one. Qed.
 
-(* the listener that gets the packet is the selected one, and its channel is open *)
+(* the listener that gets the packet is the selected one, its channel is open and has room *)
 Theorem C19_receiver_is_selected : forall s p l,
-  In l (snd (recv s p)) -> exists g b, select s p = Some (l, g, b) /\ is_closed s l = false.
+  In l (snd (recv s p)) ->
+  exists g b, select s p = Some (l, g, b) /\ is_closed s l = false /\ is_full s l = false.
 Proof. exact recv_delivers. Qed.
 
 (* the selection is exactly: RID, else MID, else SSRC map, else the unique listener of the payload
    type, else the single provisional listener (`chosen` spells the order out declaratively, with
    "unique" meaning: some route qualifies and all qualifying routes are on the same channel);
-   RID / MID / payload-type hits bind the SSRC, SSRC-map and provisional hits do not *)
+   RID / MID / payload-type hits bind the SSRC, SSRC-map and provisional hits do not; and a hit of
+   the SSRC / payload-type / provisional stages on a listener registered for another MID than the
+   packet carries (`foreign`) is discarded: the packet is dropped *)
 Theorem C19_priority : forall s p l g b,
-  select s p = Some (l, g, b) <-> chosen s p l g /\ b = stage_binds g.
+  select s p = Some (l, g, b) <-> chosen s p l g /\ b = stage_binds g /\ foreign s p l g = false.
 Proof. exact select_priority. Qed.
 
 Theorem C19_priority_none : forall s p,
   select s p = None <->
-  rid_match s p = None /\ mid_match s p = None /\ ssrc_match s p = None /\
-  (forall l, ~ pt_unique s p l) /\ (forall l, ~ prov_unique s l).
+  (rid_match s p = None /\ mid_match s p = None /\ ssrc_match s p = None /\
+   (forall l, ~ pt_unique s p l) /\ (forall l, ~ prov_unique s l))
+  \/ (exists l g, chosen s p l g /\ foreign s p l g = true).
 Proof. exact select_none. Qed.
 
 (* unique_by_pt / single_provisional (a one-pass scan) compute the declarative "unique listener" *)
@@ -42,26 +48,36 @@ Theorem C19_unique_scan : forall want rs l,
 Proof. exact scan_unique_spec. Qed.
 
 (* a packet whose MID names a registered section (and whose RID names nothing) goes to that
-   section's listener and to no other; if that listener's channel is closed it is dropped *)
+   section's listener and to no other; if that listener's channel is closed or full it is dropped *)
 Theorem C19_mid_respected : forall s p m l,
   pkt_mid s p = Some m -> kget (by_mid s) m = Some l -> rid_match s p = None ->
   (forall l', In l' (snd (recv s p)) -> l' = l) /\
-  (is_closed s l = false -> snd (recv s p) = [l]) /\
-  (is_closed s l = true -> snd (recv s p) = []).
+  (is_closed s l = false -> is_full s l = false -> snd (recv s p) = [l]) /\
+  (is_closed s l = true \/ is_full s l = true -> snd (recv s p) = []).
 Proof. exact mid_respected. Qed.
 
 (* ... and "registered section" means what it says: over every history from a fresh transport the
    MID map only holds what register_mid_listener put there *)
-Theorem C19_mid_section_registered : forall ops m l,
-  kget (by_mid (run init ops)) m = Some l -> In (RegMid m l) ops.
+Theorem C19_mid_section_registered : forall c ops m l,
+  kget (by_mid (run (init_with c) ops)) m = Some l -> In (RegMid m l) ops.
 Proof. exact mid_section_registered. Qed.
+
+(* "dropped rather than handed to a receiver of another media section": a packet that names
+   section m reaches a listener whose route is registered for another section m' only when its
+   RID or MID itself selected that listener -- never through the SSRC map, a payload type or the
+   provisional fallback (finding F27, fixed; the unfixed code did) *)
+Theorem C19_mid_never_foreign : forall s p m l r m',
+  pkt_mid s p = Some m -> In l (snd (recv s p)) ->
+  In r (routes s) -> r_tx r = l -> r_mid r = Some m' -> m' <> m ->
+  exists g b, select s p = Some (l, g, b) /\ (g = StRid \/ g = StMid).
+Proof. exact mid_never_foreign. Qed.
 
 (* every SSRC binding present after any history was created by register_listener_sync or by a
    packet of that SSRC selected through RID / MID / unique payload type -- never by the SSRC-map
    or provisional stages *)
-Theorem C19_binding_sound : forall ops x l,
-  zget (by_ssrc (run init ops)) x = Some l ->
-  exists pre o post, ops = pre ++ o :: post /\ binds (run init pre) o x l.
+Theorem C19_binding_sound : forall c ops x l,
+  zget (by_ssrc (run (init_with c) ops)) x = Some l ->
+  exists pre o post, ops = pre ++ o :: post /\ binds (run (init_with c) pre) o x l.
 Proof. exact binding_sound_init. Qed.
 
 Theorem C19_fallback_never_binds : forall s p l g b,
@@ -83,6 +99,26 @@ Theorem C19_closed_never : forall s p l g b ops,
   snd (recv s p) = [] /\ occurs (run s' ops) l = false /\
   (forall pre p' post g' b', ops = pre ++ Recv p' :: post -> select (run s' pre) p' <> Some (l, g', b')).
 Proof. exact closed_never_again. Qed.
+
+(* slow consumer / full channel: `receive` never blocks; the packet is dropped, it goes to nobody
+   else, and the registry ends up exactly as if it had been delivered *)
+Theorem C19_full_channel_drops : forall s p l g b,
+  select s p = Some (l, g, b) -> is_closed s l = false ->
+  let s1 := if b then bind_ssrc_route s (p_ssrc p) l else s in
+  (is_full s l = true -> recv s p = (s1, [])) /\ (is_full s l = false -> recv s p = (s1, [l])).
+Proof. exact full_drops. Qed.
+
+(* what a consumer finds in its channel, after any history: packets in arrival order without
+   duplicates (tags strictly increasing), at most `cap` of them, and no packet in two channels *)
+Theorem C19_queue_fifo : forall c ops l, Sorted.StronglySorted Z.lt (queue (run (init_with c) ops) l).
+Proof. exact queue_fifo. Qed.
+
+Theorem C19_queue_one_listener : forall c ops l1 l2 t,
+  In t (queue (run (init_with c) ops) l1) -> In t (queue (run (init_with c) ops) l2) -> l1 = l2.
+Proof. exact queue_tag_one_listener. Qed.
+
+Theorem C19_queue_bounded : forall c ops l, 0 <= c -> qlen (run (init_with c) ops) l <= c.
+Proof. exact queue_bounded. Qed.
 
 (* after clear_listeners nobody is registered: every packet is dropped until something registers
    (on the unfixed tree the MID map survived -- finding F-C19-1, fixed) *)
@@ -193,15 +229,57 @@ Theorem C19_bridge_independent : forall ins b x,
   of_src x (btrace b ins) = btrace b (filter (src_is x) ins).
 Proof. exact bridge_independent. Qed.
 
-(* the matched rule's MID is readable from the forwarded packet (legal id and length, one-byte or
-   absent extension block, extensions not stripped); stripping removes the block *)
+(* the matched rule's MID is readable, by the byte-level get_extension, from the forwarded packet
+   (legal id and length, one-byte or absent extension block, extensions not stripped); other
+   profiles are forwarded untouched; stripping removes the block; stamping never panics *)
 Theorem C19_bridge_mid_stamped : forall b i ss r id mid,
   o_strip (b_opts b) = false -> rule_for (b_rules b) (q_pt (i_pkt i)) = Some r ->
   mid_ext_id r = Some id -> mid_val r = Some mid ->
-  0 < id < 15 -> (1 <= length mid <= 16)%nat ->
-  (forall prof els, q_ext (i_pkt i) = Some (prof, els) -> prof = 48862) ->
-  bget (q_ext (out_pkt b i ss)) id = Some mid.
+  1 <= id <= 14 -> 1 <= RtpLib.len mid <= 16 ->
+  (forall prof d, q_ext (i_pkt i) = Some (prof, d) -> prof = 48862) ->
+  Rtp.get_extension (Bridge.hdr_of (out_pkt b i ss)) id = RtpLib.Ok (Some mid).
 Proof. exact bridge_mid_stamped. Qed.
+
+Theorem C19_bridge_mid_other_profile : forall b i ss prof d,
+  q_ext (i_pkt i) = Some (prof, d) -> prof <> 48862 -> o_strip (b_opts b) = false ->
+  q_ext (out_pkt b i ss) = Some (prof, d).
+Proof. exact bridge_mid_other_profile. Qed.
 
 Theorem C19_bridge_strip : forall b i ss, o_strip (b_opts b) = true -> q_ext (out_pkt b i ss) = None.
 Proof. exact bridge_strip. Qed.
+
+Theorem C19_bridge_stamp_total : forall id mid q, Rtp.set_extension (Bridge.hdr_of q) id mid <> RtpLib.Panic.
+Proof. exact stamp_total. Qed.
+
+(* ------------------------------------------------------------------ transport level: SRTP, (re)installation *)
+
+(* a packet that fails the source's SRTP unprotect (or does not parse) changes nothing *)
+Theorem C19_bridge_unauth_inert : forall s i, tstep s (BPkt i false) = (s, Rejected).
+Proof. exact unauth_inert. Qed.
+
+(* targets with or without an SRTP session forward the same plaintext packet (the session only
+   protects it on the wire); every authenticated arrival is forwarded *)
+Theorem C19_bridge_srtp_transparent : forall s b i,
+  t_bridge s = Some b -> t_main s <> TNeedSrtp -> t_video s <> TNeedSrtp ->
+  snd (tstep s (BPkt i true)) = Forwarded (is_video b (q_pt (i_pkt i))) (snd (bstep b i)).
+Proof. exact srtp_transparent. Qed.
+
+(* while the bridge is neither replaced nor cleared, the rewritten packets -- forwarded, or swallowed
+   by a target that requires SRTP and has no session yet -- are the trace of that bridge on the
+   authenticated arrivals: all continuity theorems above apply to them *)
+Theorem C19_bridge_rewritten_trace : forall ops b m v,
+  Forall (fun o => keeps_bridge o = true) ops ->
+  rewritten (trun (mkT (Some b) m v) ops) = map snd (btrace b (auth_ins ops)).
+Proof. exact rewritten_trace. Qed.
+
+(* installing a bridge (again) resets all per-source state: no stream is known, sequence numbers
+   and offsets start from the seeds again *)
+Theorem C19_bridge_reinstall_resets : forall s b ops,
+  Forall (fun o => keeps_bridge o = true) ops ->
+  rewritten (trun (fst (tstep s (BSet b))) ops) = map snd (btrace (fresh_bridge b) (auth_ins ops)) /\
+  forall x, sget (b_streams (fresh_bridge b)) x = None.
+Proof. exact reinstall_resets. Qed.
+
+(* without a bridge nothing is forwarded: the packet goes to the listeners *)
+Theorem C19_bridge_cleared : forall s i, t_bridge s = None -> tstep s (BPkt i true) = (s, ToListeners).
+Proof. exact no_bridge_to_listeners. Qed.
